@@ -186,7 +186,7 @@ def check_cgsystem(c, system, cgs, model, groups):
             raise Violation("edge %s surface %r m2, expected %d faces x %r" % (k, float(si.si_value(e.surface)), faces[k], V ** (2 / 3)), key="cg:surface")
         a, b = cent[k[0]], cent[k[1]]
         wd = edge * math.sqrt(sum((p - q) ** 2 for p, q in zip(a, b)))
-        if abs(float(si.si_value(e.distance)) - wd) > 1e-11 * wd:
+        if abs(float(si.si_value(e.distance)) - wd) > 1e-11 * max(wd, edge):
             raise Violation("edge %s distance %r m, centroid distance %r" % (k, float(si.si_value(e.distance)), wd), key="cg:distance")
 
 
